@@ -473,6 +473,7 @@ def D2_publish_writes(ctx):
     f = idb_fn(ctx, 'publish_writes')
     ps = feasible(f.paths(max_visits=2))
     bad = []
+    k1 = [0, 0]
     seen = collections.Counter()
     for p in ps:
         cls = [a for a in p.events if a.kind == 'atom' and a.d['term'][0] == 'discr' and has_call(a.d['term'][1], '~FinalizedAccount')]
@@ -532,13 +533,45 @@ def D2_publish_writes(ctx):
                         return of[1] == 'Some'
                 return None
 
-            def snap(kindname):
+            def snap_present():
                 for a in rest:
-                    bf = bool_fact(a)
-                    if bf and bf[0][0] == 'call' and callee_matches(bf[0][1], '::is_none_or'):
-                        cl = [s for s in subterms(bf[0]) if s[0] == 'closure']
-                        if cl and closure_kind(ctx, cl[0][1]) == kindname:
-                            return bf[1]
+                    of = option_fact(a)
+                    if of and of[1] in ('Some', 'None') and mentions_field(of[0], 'IncarnationDb.account_snapshots'):
+                        return of[1] == 'Some'
+                return None
+
+            def rel(snap_field, info_field):
+                """the relation that holds on this path between the snapshot's field and the post-state field"""
+                for a in rest:
+                    n = norm_cmp(a) if a.kind == 'atom' else None
+                    if not n:
+                        continue
+                    for l, r in ((n[1], n[2]), (n[2], n[1])):
+                        if mentions_field(l, snap_field) and mentions_field(r, info_field) and not mentions_field(l, info_field):
+                            return n[0]
+                return None
+
+            def snap(kindname):
+                """is_none_or(snapshot, differs): no snapshot ⇒ changed; else the comparison decides"""
+                present = snap_present()
+                if present is None:
+                    return None
+                if present is False:
+                    return True
+                if kindname == 'code':
+                    r = rel('AccountBasic.code_hash', 'AccountInfo.code_hash')
+                    if r in ('Ne', 'Eq'):
+                        k1[0] += 1
+                        return r == 'Ne'
+                    return None
+                rn = rel('AccountBasic.nonce', 'AccountInfo.nonce')
+                rb = rel('AccountBasic.balance', 'AccountInfo.balance')
+                if rn == 'Ne' or rb == 'Ne':
+                    k1[1] += 1
+                    return True
+                if rn == 'Eq' and rb == 'Eq':
+                    k1[1] += 1
+                    return False
                 return None
             empty_hash = truth('AccountInfo::is_empty_code_hash')
             code_some = is_some('AccountInfo.code')
@@ -604,19 +637,7 @@ def D2_publish_writes(ctx):
            what='Unchanged ⇒ nothing; Deleted ⇒ StorageReset (+Basic(None) unless beneficiary); Created ⇒ StorageReset + account; Updated ⇒ no reset; Code published ⇔ has code ∧ code present ∧ (no snapshot ∨ snapshot hash ≠ new hash); Basic published when code/nonce/balance changed; every changed slot published with its present value; estimate flag forwarded')
     # the two snapshot closures
     cls = ctx.facts.closures_of(f.name)
-    okc = [False, False]
-    for c in cls:
-        cf = ctx.fn(c)
-        rets = [([a for a in q.events if a.kind == 'atom'], [e for e in q.events if e.kind == 'ret'][0].d['value']) for q in feasible(cf.paths())]
-        if len(rets) == 1:
-            r = rets[0][1]
-            if r[0] == 'call' and callee_matches(r[1], 'PartialEq::ne') and is_field(r[2][0], 'AccountBasic.code_hash') and r[2][1][0] == 'agg' and r[2][1][2] == 'Some' and any(s[0] == 'upvar' for s in subterms(r[2][1])):
-                okc[0] = True
-        if len(rets) == 2:
-            txt = ' '.join(show(r) + ' ' + ' '.join(show(a.d['term']) for a in at) for at, r in rets)
-            if 'nonce' in txt and 'balance' in txt and 'Ne(' in txt or 'PartialEq::ne' in txt:
-                okc[1] = True
-    ctx.ob('K1', f, 'snapshot-comparison-closures', all(okc), f'code-hash closure={okc[0]} nonce/balance closure={okc[1]}', site=f.loc(f.b['lo']),
+    ctx.ob('K1', f, 'snapshot-comparison-closures', k1[0] >= 1 and k1[1] >= 1, f'paths deciding code by snapshot.code_hash vs new hash={k1[0]}, basic by nonce/balance={k1[1]}', site=f.loc(f.b['lo']),
            what='code changed ⇔ snapshot.code_hash != Some(new hash); basic changed ⇔ nonce or balance differ')
 
 
